@@ -48,6 +48,10 @@ func Suite(prop, tier string) []qx.SuiteItem {
 			Threads: [][]callSpec{{{Msgs: []msgSpec{{P: 0, Size: 19}, {P: 0, Size: 19}, {P: 0, Size: 18}}}, {Msgs: []msgSpec{{P: 0, Size: 69}, {P: 0, Size: 0}}}}, {{Msgs: []msgSpec{{P: 0, Size: 20}}}}}, Faults: []string{"err:6", "lost"}}, b)
 		add(&WS{Name: "too-large-and-mixed", BatchSize: 2, BatchBytes: 100, MaxAttempts: 1, Acks: kafka.RequireOne, WriterTopic: "A",
 			Threads: [][]callSpec{{{Msgs: []msgSpec{{P: 0, Size: 5}, {P: 0, Size: 70}}}, {Msgs: []msgSpec{{P: 0}, {P: 1, Topic: "A"}}}, {Msgs: []msgSpec{{P: 1}}}}}, Faults: []string{"err:6"}}, b)
+		// with one header "h" of n bytes (n < 64) the size is 34+n: 54-byte messages go one per request at BatchBytes=100,
+		// a 114-byte one is refused
+		add(&WS{Name: "bytes-boundary-headers", BatchSize: 10, BatchBytes: 100, MaxAttempts: 2, Acks: kafka.RequireOne, WriterTopic: "A",
+			Threads: [][]callSpec{{{Msgs: []msgSpec{{P: 0, Hdr: 20}, {P: 0, Hdr: 20}, {P: 0, Hdr: 12}}}, {Msgs: []msgSpec{{P: 0, Hdr: 60}}}}, {{Msgs: []msgSpec{{P: 0, Hdr: 63}}}, {Msgs: []msgSpec{{P: 0, Hdr: 80}}}}}, Faults: []string{"err:6"}}, b)
 		add(&WS{Name: "count-boundary-2thr", BatchSize: 2, MaxAttempts: 2, Acks: kafka.RequireOne, WriterTopic: "A",
 			Threads: [][]callSpec{{{Msgs: []msgSpec{m(0)}}, {Msgs: []msgSpec{m(0), m(0), m(0)}}}, {{Msgs: []msgSpec{m(0), m(1)}}}}, Faults: []string{"err:6", "lost", "stall"}}, b)
 		add(&WS{Name: "async-timer", BatchSize: 3, MaxAttempts: 2, Acks: kafka.RequireOne, WriterTopic: "A", Async: true,
